@@ -137,6 +137,7 @@ def run(ck):
         if ck.quick:
             temps = [0.0, 1e-3, 1.0, 1.4, 5.0, 77.0, 300.0, None] if s % 2 == 0 else [0.0, 0.01, 0.1, 2.0, 10.0, 1000.0, rng.choice([3.3, 150.0])]
         outside_state = {}
+        outside_thermal = {}
         for T in temps:
             Teff = T if T is not None else (bathT if bathT is not None else 0.0)
             for cond, limit in (("thermal", "weak_coupling"), ("thermal_excited_state", "weak_coupling"),
@@ -168,6 +169,8 @@ def run(ck):
                         continue
                     # a state whose defining basis is fixed by the request is the same physical state whether it is requested inside or
                     # outside a basis context (read here after the context was left, i.e. in the site representation in both cases)
+                    if cond == "thermal" and not inside:
+                        outside_thermal[T] = d_site.copy()
                     if cond == "thermal_excited_state":
                         if not inside:
                             outside_state[(cond, limit, T)] = d_site.copy()
@@ -255,6 +258,24 @@ def run(ck):
                             ratios(pops[lo:], ens[lo:], Teff, what + ":" + basis, inp, direct=(inside or (cond == "thermal" and not inside)))
                         if lo > 0 and numpy.abs(pops[:lo]).max() > 0:
                             ck.fail("ground:%s" % what, "excited-state equilibrium has ground-state population", inp)
+        # ---- the same states requested while an energy-units context is open (the temperature is in Kelvin whatever the energy units) -------
+        for uctx in ("1/cm", "eV"):
+            todo = [(("thermal", "weak_coupling", T_), d_) for T_, d_ in outside_thermal.items()] + list(outside_state.items())
+            for (cond_, limit_, T_), d_out in todo:
+                if T_ is None or not (T_ >= 77.0):
+                    continue
+                inpu = {"sites": n, "energies_cm": energies, "condition": cond_, "limit": limit_, "temperature": T_, "requested_inside": "energy_units(%r)" % uctx}
+                ck.case((s, T_, cond_, limit_, uctx), nontrivial=True, condition=cond_, limit=limit_, lowT=False, inside=False)
+                try:
+                    with energy_units(uctx):
+                        d_u = numpy.array(agg.get_DensityMatrix(condition_type=cond_, relaxation_theory_limit=limit_, temperature=T_).data).copy()
+                    dvu = float(numpy.abs(d_u - d_out).max())
+                    ck.resid("state requested inside a units context vs outside", dvu)
+                    if dvu > 1e-9:
+                        ck.fail("units:%s:%s" % (cond_, limit_), "the state requested inside energy_units(%r) is not the Boltzmann state of the requested temperature "
+                                "(it differs from the one requested outside the context)" % uctx, inpu, dvu)
+                except Exception as e:
+                    ck.fail("raises:units:%s:%s" % (cond_, limit_), "request inside a units context raised %r" % (e,), inpu)
         # ---- the same states requested inside the basis context of some OTHER operator, real symmetric and complex Hermitian --------------
         from quantarhei.qm.hilbertspace.operators import SelfAdjointOperator as _SAO
         for okind in ("real symmetric", "complex Hermitian"):
@@ -330,6 +351,11 @@ def run(ck):
                 d_ps = numpy.array(rp.data).copy()
                 with eigenbasis_of(Hb):
                     d_ps_e = numpy.array(rp.data).copy()
+                with energy_units("1/cm"):
+                    d_thu = numpy.array(aggb.get_thermal_ReducedDensityMatrix().data).copy()
+                dthu = float(numpy.abs(d_thu - numpy.array(aggb.get_thermal_ReducedDensityMatrix().data)).max())
+                if dthu > 1e-9:
+                    ck.fail("units:opensystem-thermal", "get_thermal_ReducedDensityMatrix() inside energy_units('1/cm') differs from the state outside the context", inp, dthu)
                 if check_state(d_ps, "opensystem-excited-pulse", inp, unit_trace=False):
                     # same physical state in both presentations: spectrum (eigenvalues) is basis independent
                     e1 = numpy.sort(numpy.linalg.eigvalsh((d_ps + d_ps.conj().T) / 2)); e2 = numpy.sort(numpy.linalg.eigvalsh((d_ps_e + d_ps_e.conj().T) / 2))
